@@ -252,7 +252,9 @@ def run(res):
                 "of them for the full-mutation cases and three per class for the others; every call is judged in the same channel "
                 "state (fresh node after each accepted call); the model's accept at a mutant's content is the semantic entry "
                 "point's answer on a fresh node. Restart stage: every second signed case is restored from the store "
-                "(Node::restore_node) and both entry points are retried, compared with a not-restarted control",
+                "(Node::restore_node) and both entry points are retried, compared with a not-restarted control; every third channel "
+                "is readied under a permanent id different from its initial id (requests through either id, the other one after "
+                "the restart; the harness derives from the basepoints of the initial id's stub)",
         "samples": [strip(c) for c in cases[:2]],
         "cases": len(cases),
         "phase2_signed": len(signed),
